@@ -291,6 +291,17 @@ let check_table (t : table) (max_pairs : int) =
                     (Printf.sprintf "MONITOR layout=%d clause=%s history=%s observed=[%s]\n" t.id name
                        (history !nodes !count idx (Some e.lab)) (evs_str e.evs))
                 end) bad;
+            (* C09: the repeat request of the REAL step against the specification's expected_repeat *)
+            (match inp with
+             | IEv ev ->
+               let exp = irep_of_model (Some (x_expected_repeat t.layout p.ms ev)) in
+               if exp <> e.rep && not (Hashtbl.mem clause_found "C09") then begin
+                 Hashtbl.add clause_found "C09" ();
+                 Buffer.add_string findings
+                   (Printf.sprintf "MONITOR layout=%d clause=C09 history=%s observed=repeat%s expected%s\n" t.id
+                      (history !nodes !count idx (Some e.lab)) (irep_str e.rep) (irep_str exp))
+               end
+             | IReleaseAll -> ());
             (* model vs implementation *)
             let evs_m_i = List.map ev_to evs_m in
             let rep_m_i = irep_of_model rep_m in
